@@ -1,7 +1,7 @@
 #!/bin/sh
 # usage: tools/withpatch.sh <patch.diff> <command...>   (applies patch to /repo, runs, always reverts)
 p="$1"; shift
-git -C /repo apply "$p" || { echo "patch does not apply"; exit 3; }
+git -C /repo apply "$(readlink -f "$p")" || { echo "patch does not apply"; exit 3; }
 "$@"; rc=$?
 git -C /repo checkout -- . 
 exit $rc
